@@ -239,7 +239,7 @@ class ModelLoader(object):
         '''
         Open and read from a *filename* on disk, and parse its content.
         '''
-        with open(filename, 'r') as f:
+        with open(filename, 'r', newline='') as f:
             return self.file_input(f)
     
     def file_input(self, file_object):
